@@ -1,7 +1,7 @@
 (* Obligations over the regenerated tables (Generated.v): the hand-written model constants are the
    ones the current source declares.  Each is a finite fact re-proved by vm_compute on every run. *)
 From Coq Require Import String.
-From RT Require Import Model.Lexer Model.Parser Generated.
+From RT Require Import Model.Ty Model.Lexer Model.Parser Generated.
 Open Scope N_scope.
 
 Definition subset (a b : list N) : bool := forallb (fun c => existsb (N.eqb c) b) a.
@@ -51,3 +51,23 @@ Proof.
   rewrite (H 120), (H 111), (H 98), (H ch_under), (H ch_dot) by (vm_compute; reflexivity).
   repeat split.
 Qed.
+
+(* every type tag the source declares has a case in TypeToString (no `type convert error`), and the model's tag
+   type has exactly the declared tags *)
+Definition tag_name (t : Model.Ty.tag) : string :=
+  match t with
+  | Model.Ty.NIL => "NIL" | Model.Ty.INT => "INT" | Model.Ty.UNKNOWN => "UNKNOWN" | Model.Ty.STRING => "STRING"
+  | Model.Ty.BOOL => "BOOL" | Model.Ty.FLOAT => "FLOAT" | Model.Ty.UNTYPED => "UNTYPED" | Model.Ty.ARRAY => "ARRAY"
+  | Model.Ty.HASH => "HASH" | Model.Ty.UNION => "UNION" | Model.Ty.OBJECT => "OBJECT" | Model.Ty.BLOCK => "BLOCK"
+  | Model.Ty.CLASS => "CLASS" | Model.Ty.SELF => "SELF" | Model.Ty.SYMBOL => "SYMBOL" | Model.Ty.KEYVALUE => "KEYVALUE"
+  | Model.Ty.CONST => "CONST" | Model.Ty.RANGE => "RANGE" | Model.Ty.UNIFY => "UNIFY"
+  | Model.Ty.OPTIONAL_UNIFY => "OPTIONAL_UNIFY" | Model.Ty.BLOCK_RESULT_ARRAY => "BLOCK_RESULT_ARRAY"
+  | Model.Ty.SELF_ARRAY => "SELF_ARRAY" | Model.Ty.ARGUMENT => "ARGUMENT" | Model.Ty.UNIFY_ARGUMENT => "UNIFY_ARGUMENT"
+  | Model.Ty.KEYVALUE_ARRAY => "KEYVALUE_ARRAY" | Model.Ty.FLATTEN => "FLATTEN" | Model.Ty.ITEM => "ITEM"
+  | Model.Ty.OWNER => "OWNER"
+  end.
+
+Lemma tbl_type_tags :
+  type_const_names = "EOS"%string :: map tag_name Model.Ty.all_tags /\
+  forallb (fun n => existsb (String.eqb n) type_to_string_cases) (map tag_name Model.Ty.all_tags) = true.
+Proof. vm_compute. split; reflexivity. Qed.
